@@ -250,10 +250,13 @@ theorem rowsOK_makeTemplateAndSpikesObjects (v : View) (out : FDir) (hv : ViewOK
 
 theorem spikesDepths_length (v : View) (hv : ViewOK v) (cd : List Row) :
     (spikesDepths v cd).length = v.samples.length := by
-  unfold spikesDepths
-  split
-  · simp [tokRows_length, hv.1]
-  · simp [hv.2.1]
+  unfold spikesDepths getDepthsRows
+  cases v.featRows with
+  | none => simp [hv.2.1]
+  | some n =>
+    by_cases h : n = v.times.length
+    · simp [h, tokRows_length, hv.1]
+    · simp [h, hv.2.1]
 
 theorem rowsOK_makeDepths (v : View) (out out' : FDir) (hv : ViewOK v) (h : RowsOK v out)
     (hd : makeDepths v out = some out') : RowsOK v out' := by
